@@ -157,8 +157,12 @@ def make_pool(rng: PlanRng):
         pool[f"lb{k}a"] = sig(rng.uniform(0.05, 0.5, k))
         pool[f"ub{k}a"] = sig(rng.uniform(1.0, 4.0, k))
         pool[f"ub{k}b"] = sig(rng.uniform(5.0, 10.0, k))
+        # integer-typed bounds (a caller writing ub=[2, 5, 3]) - same meaning, other dtype
+        pool[f"ub{k}i"] = np.asarray([rng.integers(2, 9) for _ in range(k)], dtype=np.int64)
+        pool[f"lb{k}i"] = np.zeros(k, dtype=np.int64)
         pool[f"x{k}a"] = sig(rng.uniform(0.5, 3.0, k))
         pool[f"x{k}b"] = sig(rng.uniform(0.5, 3.0, k))
+        pool[f"U{k}"] = sig(rng.uniform(0.05, 0.95, (5, k)))   # fractions of the bound range
         X = rng.uniform(0.0, 6.0, (6, k))
         X[0] = rng.uniform(0.0, 0.04, k)       # below every positive lb
         X[1] = rng.uniform(10.5, 12.0, k)      # above every finite ub
@@ -371,6 +375,25 @@ SOLVER_QUERIES = {"fit", "fit_underdetermined", "minimize_variance", "fit_adapti
                   "fit_decomposition", "range_of_solutions"}
 
 
+def derive_args(est_ref, pool, meta, n_src):
+    """Arguments derived from the *reference* state so that some queries are meaningful in
+    every state: 'Bin?' = relative captures of in-bound intensities (in-gamut targets),
+    'npin?' = relative capture of the mid-range intensity (a neutral point inside the
+    chromatic gamut).  Computed once per comparison and handed to both objects."""
+    out = {}
+    try:
+        lb = np.asarray(est_ref.lb, float)
+        ub = np.asarray(est_ref.ub, float)
+        ub = np.where(np.isfinite(ub), ub, lb + 5.0)
+        U = pool[f"U{n_src}"][:meta["n_rows"]]
+        out["Bin?"] = np.asarray(est_ref.system_relative_capture(lb + U * (ub - lb)))
+        out["npin?"] = np.asarray(est_ref.system_relative_capture(lb + 0.5 * (ub - lb)))
+    except Exception:  # noqa: BLE001 - no system registered (yet): fall back to literals
+        out["Bin?"] = pool["Bq0"]
+        out["npin?"] = pool["np0"]
+    return out
+
+
 def resolve(ref, n_src):
     if isinstance(ref, str) and ref.endswith("?"):
         return f"{ref[:-1]}{n_src if n_src else 1}"
@@ -384,6 +407,8 @@ def run_query(est, q, pool, n_src):
 
     def g(key, default=None):
         r = a.get(key, default)
+        if isinstance(r, str) and r in ("Bin?", "npin?"):
+            return pool[r]          # overlay provided by the caller (derive_args)
         r = resolve(r, n_src)
         if isinstance(r, str) and r in pool:
             return pool[r]
@@ -434,7 +459,7 @@ def run_query(est, q, pool, n_src):
     raise KeyError(name)
 
 
-def pristine_battery(pool, client, nf_ops, queries, n_src):
+def pristine_battery(pool, meta, client, nf_ops, queries, n_src):
     """Runs inside a freshly forked child of the pristine server (dreye imported, never
     called): normal-form replay on a new estimator, then every query on its own copy."""
     import warnings as _w
@@ -442,7 +467,8 @@ def pristine_battery(pool, client, nf_ops, queries, n_src):
     est = new_estimator(client, pool)
     for op in nf_ops:
         apply_mutator(est, op, pool)
-    return [call(run_query, copy.deepcopy(est), q, pool, n_src) for q in queries]
+    qpool = dict(pool, **derive_args(copy.deepcopy(est), pool, meta, n_src))
+    return [call(run_query, copy.deepcopy(est), q, qpool, n_src) for q in queries]
 
 
 def query_array_args(q, pool, n_src):
@@ -489,7 +515,7 @@ def cheap_battery(meta):
 
 
 def random_query(rng: PlanRng, meta, solver_ok=True, slow_ok=True):
-    B = rng.choice(["Bq0", "Bq1", "Bt0", "Bt1"])
+    B = rng.choice(["Bq0", "Bq1", "Bt0", "Bt1", "Bin?", "Bin?"])
     kind = meta["kind"]
     cheap = [
         lambda: {"q": "capture", "a": {"signals": "sig"}},
@@ -514,9 +540,9 @@ def random_query(rng: PlanRng, meta, solver_ok=True, slow_ok=True):
                                               "relative": rng.coin(0.8)}},
         lambda: {"q": "gamut_l1_scaling", "a": {"B": B}},
         lambda: {"q": "gamut_dist_scaling", "a": {"B": B, "neutral_point":
-                                                   rng.choice([None, "np0"])}},
+                                                   rng.choice([None, "np0", "npin?", "npin?"])}},
         lambda: {"q": "gamut_dist_scaling", "a": {"B": "Bz", "neutral_point":
-                                                   rng.choice([None, "np0"])}},
+                                                   rng.choice([None, "np0", "npin?", "npin?"])}},
         lambda: {"q": "gamut_l1_scaling", "a": {"B": "Bz"}},
     ]
     if kind != "step":
@@ -530,8 +556,8 @@ def random_query(rng: PlanRng, meta, solver_ok=True, slow_ok=True):
         lambda: {"q": "fit", "a": {"B": B, "model": (
             "excitation" if (slow_ok and rng.coin(0.1)) else "poisson")}},
         lambda: {"q": "fit", "a": {"B": B}},
-        lambda: {"q": "fit_underdetermined", "a": {"B": B, "opt": rng.choice([None, "min", "max",
-                                                                               "var"])}},
+        lambda: {"q": "fit_underdetermined", "a": {"B": "Bin?", "opt": rng.choice([None, "min", "max",
+                                                                                    "var"])}},
         lambda: {"q": "minimize_variance", "a": {"B": B}},
         lambda: {"q": "fit_adaptive", "a": {"B": B, "objective": rng.choice(["unity", "max"])}},
         lambda: {"q": "fit_decomposition", "a": {"B": B, "n_layers": rng.integers(1, 2),
@@ -554,13 +580,15 @@ def random_mutator(rng: PlanRng, sym: Sym, meta, first=False):
         if kind != "step" and rng.coin(0.3):
             src, dom = "SF0", "FD"
         kk = meta["n_src"][src]
-        lb = rng.choice([None, None, "lbs", f"lb{kk}a"])
-        ub = rng.choice([None, "ubs0", "ubs1", f"ub{kk}a", f"ub{kk}b"], p=[1, 2, 2, 3, 3])
+        lb = rng.choice([None, None, "lbs", f"lb{kk}a", f"lb{kk}i"], p=[2, 2, 2, 2, 1])
+        ub = rng.choice([None, "ubs0", "ubs1", f"ub{kk}a", f"ub{kk}b", f"ub{kk}i"],
+                        p=[1, 2, 2, 3, 3, 2])
         return {"m": "register_system", "sources": src, "domain": dom, "lb": lb, "ub": ub}
 
     def m_bounds():
-        lb = rng.choice([None, "lbs", f"lb{k}a"], p=[3, 1, 2])
-        ub = rng.choice([None, "ubs0", "ubs1", f"ub{k}a", f"ub{k}b"], p=[1, 1, 1, 2, 2])
+        lb = rng.choice([None, "lbs", f"lb{k}a", f"lb{k}i"], p=[3, 1, 2, 0.5])
+        ub = rng.choice([None, "ubs0", "ubs1", f"ub{k}a", f"ub{k}b", f"ub{k}i"],
+                        p=[1, 1, 1, 2, 2, 1.5])
         if lb is None and ub is None:
             ub = f"ub{k}a"
         return {"m": "register_bounds", "lb": lb, "ub": ub}
@@ -817,8 +845,8 @@ def execute(plan):
         from sim import pristine
         nf, _, _ = normal_form(cs.muts)
         qs = [{k: v for k, v in q.items() if k != "fault"} for q in queries]
-        refs = pristine.client().call("checks.c14", "pristine_battery", plan["pool"], cs.client,
-                                      nf, qs, cs.sym.n_src)
+        refs = pristine.client().call("checks.c14", "pristine_battery", plan["pool"], meta,
+                                      cs.client, nf, qs, cs.sym.n_src)
         bump("pristine_process_references", len(qs))
         for q, r_h, r_p in zip(qs, answers, refs):
             rt, at = tol_for(q)
@@ -830,13 +858,18 @@ def execute(plan):
                                 f"process where dreye was never called before: {why}",
                                 query=q, where=where, client=cs.client["id"])
 
-    def compare_query(cs, q, where, faulted_outcome=None):
+    def compare_query(cs, q, where, faulted_outcome=None, overlay=None):
         """Run q on the history object and on a fresh copy of the normal-form object."""
         n_src = cs.sym.n_src
         ref_obj = copy.deepcopy(cs.nf_master)
-        r_ref = call(run_query, ref_obj, q, pool, n_src)
+        qpool = pool
+        if any(v in ("Bin?", "npin?") for v in q.get("a", {}).values() if isinstance(v, str)):
+            qpool = dict(pool, **derive_args(copy.deepcopy(cs.nf_master), pool, meta, n_src))
+        if overlay is not None:
+            qpool = dict(qpool, **overlay)
+        r_ref = call(run_query, ref_obj, q, qpool, n_src)
         if faulted_outcome is None:
-            r_h = call(run_query, cs.est, q, pool, n_src)
+            r_h = call(run_query, cs.est, q, qpool, n_src)
         else:
             r_h = faulted_outcome
         check_pool(f"query {q['q']} ({where})")
@@ -921,10 +954,12 @@ def execute(plan):
                 continue
             n_src = cs.sym.n_src
             kind = fault["kind"]
+            ov = derive_args(copy.deepcopy(cs.nf_master), pool, meta, n_src)
+            pool_f = dict(pool, **ov)
             # learn the call's crash points / solve count on a reference copy
             probe_obj = copy.deepcopy(cs.nf_master)
             with SolveSeam() as seam0, LineInterrupter(None) as li0:
-                call(run_query, probe_obj, q, pool, n_src)
+                call(run_query, probe_obj, q, pool_f, n_src)
             n_lines, n_solves = li0.count, seam0.count
             fired = False
             allowed = ()
@@ -943,7 +978,7 @@ def execute(plan):
                 for j, n in enumerate(pts or [None]):
                     with LineInterrupter(n) as li:
                         try:
-                            r_h = call(run_query, cs.est, q, pool, n_src)
+                            r_h = call(run_query, cs.est, q, pool_f, n_src)
                         except SimInterrupt:
                             r_h = Outcome("exc", "SimInterrupt")
                     if li.fired_at is not None:
@@ -962,17 +997,17 @@ def execute(plan):
             elif kind == "solver_error":
                 k = fault["k"] % n_solves if n_solves else 0
                 with SolveSeam(fail_at={k}) as seam:
-                    r_h = call(run_query, cs.est, q, pool, n_src)
+                    r_h = call(run_query, cs.est, q, pool_f, n_src)
                 fired = seam.fired > 0
                 allowed = ("SolverError", "RuntimeError")
             elif kind == "warnings_as_errors":
                 with WarningsAsErrors():
-                    r_h = call(run_query, cs.est, q, pool, n_src)
+                    r_h = call(run_query, cs.est, q, pool_f, n_src)
                 fired = (not r_h.ok)
                 allowed = ("*Warning",)
             elif kind == "errstate_raise":
                 with ErrstateRaise():
-                    r_h = call(run_query, cs.est, q, pool, n_src)
+                    r_h = call(run_query, cs.est, q, pool_f, n_src)
                 fired = (not r_h.ok) and r_h.value == "FloatingPointError"
                 allowed = ("FloatingPointError",)
             else:
@@ -994,7 +1029,8 @@ def execute(plan):
                 for bq in plan["battery"]:
                     compare_query(cs, bq, f"battery after aborted {q['q']} at step {step}")
                 continue
-            compare_query(cs, q, f"step {step} (fault {kind} did not abort)", faulted_outcome=r_h)
+            compare_query(cs, q, f"step {step} (fault {kind} did not abort)", faulted_outcome=r_h,
+                          overlay=ov)
         # ---- end of schedule: full battery on every client ----
         for cs in states.values():
             if not cs.alive:
